@@ -113,7 +113,7 @@ func (r *Run) modelFunc(name string) *Func {
 // ruleStoreContracts (C12 store side, D4): each operation of the component store does what a map
 // keyed by (type, entity) does, on every path of its body.
 func ruleStoreContracts(r *Run) {
-	if len(r.Undecided) > 0 {
+	if r.broken() {
 		return
 	}
 	const T, E = "param:ec.EntityComponentTypeId", "param:ec.EntityId"
@@ -423,7 +423,7 @@ func derefNamedT(t types.Type) (*types.Named, bool) {
 
 // ruleSubscriptions (C13 store side): Subscribe / Unsubscribe / UnsubscribeByParticipant / Notify.
 func ruleSubscriptions(r *Run) {
-	if len(r.Undecided) > 0 {
+	if r.broken() {
 		return
 	}
 	const T, P = "param:entityComponentTypeID", "param:participantID"
@@ -557,7 +557,7 @@ func ruleSubscriptions(r *Run) {
 // ruleIDGenerator (D3): New never returns an id that is still out; ids go back only from the two
 // legitimate call sites.
 func ruleIDGenerator(r *Run) {
-	if len(r.Undecided) > 0 {
+	if r.broken() {
 		return
 	}
 	fn := r.modelFunc("models.(*SequentialIDGenerator).New")
@@ -635,7 +635,7 @@ func ruleIDGenerator(r *Run) {
 // ruleBroadcastShape (C3): Broadcast / BroadcastTo deliver exactly once to every other member.
 func ruleBroadcastShape(r *Run) {
 	m := r.M()
-	if len(r.Undecided) > 0 {
+	if r.broken() {
 		return
 	}
 	fromProto := r.P.LookupFunc(pkgHCWS, "", "MsgFromProto")
